@@ -20,7 +20,7 @@ CLAIMS = {
 CLAIMS.update({
  "C05": dict(
    technique="symbolic normal forms (sympy) of the kernel's return expressions obtained by def-use expansion over clang's AST; compositional translation-weight typing",
-   text="Decides, for all operand values and for each of the seven return statements of compute_node_triangle_distance: the barycentric components sum to one; the returned squared distance is the squared distance from the query point to the point those components designate; both are unchanged under a common translation. An identity on the expression is stronger than any number of samples. It does not decide that the region tests pick the closest point, non-negativity of the components, rotation invariance or rounding - those need reasoning under branch conditions / floating point, which this family does not do. Also: each result that designates a vertex or an edge point is returned exactly under the Voronoi-region test of that feature (polynomial identities in the coordinates of p, a, b, c).",
+   text="Decides, for all operand values and for each of the seven return statements of compute_node_triangle_distance: the barycentric components sum to one; the returned squared distance is the squared distance from the query point to the point those components designate; both are unchanged under a common translation. An identity on the expression is stronger than any number of samples. It does not decide that the region tests pick the closest point, non-negativity of the components, rotation invariance or rounding - those need reasoning under branch conditions / floating point, which this family does not do. Also: each result that designates a vertex or an edge point is returned exactly under the Voronoi-region test of that feature (polynomial identities in the coordinates of p, a, b, c). Also: the returned squared distance has the form |p - closest|^2 for the closest point the triple describes, on every return.",
    note="Trusted: sympy expand/cancel for polynomial identity; refutations are exact non-zero values at rational points (sound). vec3's operators are opened from their own AST, not modelled. No branch condition is interpreted.",
    ref="DESIGN.md section 4 C05, section 2 (LF engine)"),
  "C07": dict(
@@ -66,7 +66,7 @@ CLAIMS.update({
    ref="DESIGN.md section 4 C11"),
  "C20": dict(
    technique="normal forms of the grids' index arithmetic (LF engine) with sibling agreement across uspg_abstract/uspg_3d/uspg_4d instantiations; arithmetic-width rule",
-   text="Decides for every instantiated grid class: every voxel flattening is x + y*nx + z*nx*ny with axis-consistent indices and computed in size_t (as is the total voxel count); every quantisation is floor((coord - min_axis)/voxel_size) of the matching axis; update_dimensions assigns counts, origin and extent axis-consistently and sizes the storage with nx*ny*nz; get_grid_content visits [0,n) and get_neighborhood [i-1,i+2) clamped, per axis; every quantised coordinate anywhere in the product (grid classes, store_face_in_uspg, the contact look-ups) is limited to the last voxel of its axis before it addresses a voxel - the count is ceil(extent/size), so floor((max-min)/size) is one past the end whenever the extent is a multiple of the voxel size (found D20, repaired) - or is the open end of a range closed by a limited index, or a node position that the positive box padding keeps inside; the region grid of the polarizer, whose ray marching steps to the next voxel without a bounds test, extends two voxel sizes beyond the node extrema. Also: no guard that survives NDEBUG excludes a face of the declared box; a neighbourhood / content query never answers from a data member kept from an earlier call.",
+   text="Decides for every instantiated grid class: every voxel flattening is x + y*nx + z*nx*ny with axis-consistent indices and computed in size_t (as is the total voxel count); every quantisation is floor((coord - min_axis)/voxel_size) of the matching axis; update_dimensions assigns counts, origin and extent axis-consistently and sizes the storage with nx*ny*nz; get_grid_content visits [0,n) and get_neighborhood [i-1,i+2) clamped, per axis; every quantised coordinate anywhere in the product (grid classes, store_face_in_uspg, the contact look-ups) is limited to the last voxel of its axis before it addresses a voxel - the count is ceil(extent/size), so floor((max-min)/size) is one past the end whenever the extent is a multiple of the voxel size (found D20, repaired) - or is the open end of a range closed by a limited index, or a node position that the positive box padding keeps inside; the region grid of the polarizer, whose ray marching steps to the next voxel without a bounds test, extends two voxel sizes beyond the node extrema. Also: no guard that survives NDEBUG excludes a face of the declared box; a neighbourhood / content query never answers from a data member kept from an earlier call. The query members are const. All members of both grid templates are analysed (explicit instantiation in a synthetic unit), used by the product or not.",
    note="Decided in real arithmetic on the expression forms; floating-point rounding of the quotient itself (a coordinate within one ulp below a voxel boundary) is not modelled. Geometric completeness of the 27-voxel neighbourhood follows from the loop ranges plus the quantisation form and is argued in DESIGN, not mechanised.",
    ref="DESIGN.md section 4 C20"),
 })
@@ -87,8 +87,8 @@ CLAIMS.update({
    ref="DESIGN.md section 4 C04"),
  "C12": dict(
    technique="polynomial identities on the per-face / per-node contributions (LF engine), structural matching of accumulations and running extrema, 3x3 index-layout interpretation of constructor/transpose/get_col",
-   text="Decides exact formula clauses: the volume integrand (and the signed-volume sibling in the orientation check) is the scalar triple product of the face's own nodes, volume = |sum|/6, inside-out cells are flipped through a reference; face area = |cross|/2 and normal = normalised cross product; centroid contribution = (x1+x2+x3)/3*area over used faces, divided by area_; area = sum of used faces' areas; the bounding box keeps per-axis running extrema over used nodes from +/-infinity and returns (min xyz, max xyz); the covariance entries accumulate (p_a-c_a)(p_b-c_b) for the matching axes into a symmetric matrix; the index conventions of the mat33 constructor, transpose and get_col compose so that the axis returned when eval[k] dominates is the solver's evec[k] in component order. Also: the signed volume that decides the global flip is summed only after the flood fill has made all windings consistent; volume / centroid / area / bounding box / axis selection are decided on the symbolic value of what is returned, independent of local names and statement forms. Also: the signed-volume sums range over every slot of face_lst_ (not the first get_nb_of_faces() slots).",
-   note="Trusted: the eigen solver's convention evec[k] <-> eval[k]. Frame independence, independence of the element numbering, the flood-fill orientation repair and the eigen-solver's accuracy are not decided.",
+   text="Decides exact formula clauses: the volume integrand (and the signed-volume sibling in the orientation check) is the scalar triple product of the face's own nodes, volume = |sum|/6, inside-out cells are flipped through a reference; face area = |cross|/2 and normal = normalised cross product; centroid contribution = (x1+x2+x3)/3*area over used faces, divided by area_; area = sum of used faces' areas; the bounding box keeps per-axis running extrema over used nodes from +/-infinity and returns (min xyz, max xyz); the covariance entries accumulate (p_a-c_a)(p_b-c_b) for the matching axes into a symmetric matrix; the index conventions of the mat33 constructor, transpose and get_col compose so that the axis returned when eval[k] dominates is the solver's evec[k] in component order. Also: the signed volume that decides the global flip is summed only after the flood fill has made all windings consistent; volume / centroid / area / bounding box / axis selection are decided on the symbolic value of what is returned, independent of local names and statement forms. Also: the signed-volume sums range over every slot of face_lst_ (not the first get_nb_of_faces() slots). Also: the area sum ranges over the whole face list; the winding flood fill queues the neighbours across all three edges of the seed face and of every face it visits; each Givens step and each final reflection of the symmetric 3x3 eigen solver preserves the characteristic polynomial of the tridiagonal matrix (polynomial identity modulo c^2+s^2=1 and the half-angle relation, by Groebner-basis reduction).",
+   note="Trusted: the eigen solver's convention evec[k] <-> eval[k]. Frame independence, independence of the element numbering, that the flood fill reaches every face (connectivity), convergence and rounding of the eigen solver, its Householder prologue and eigenvector updates are not decided.",
    ref="DESIGN.md section 4 C12"),
 })
 
@@ -127,7 +127,7 @@ CLAIMS.update({
 CLAIMS.update({
  "C14": dict(
    technique="compositional translation-weight typing (LF engine): symbolic shift of all position-like atoms, affine-weight inference for scalars/vectors, Min/Max and kernel lemmas",
-   text="Decides the structural half of C14 in all six configurations: every add_force argument of the cell routines and of the configured contact model (including arguments of opaque geometric calls) has translation weight 0; the kernel outputs have weight 0; integrator displacements have weight 0 and points written by pos_.reset weight 1; nodes added by split/merge have weight 1; both operands of every position-dependent comparison in the refiner, the contact look-up and narrow phase, the box test and the divider's plane tests have equal weights per axis; grid quantisation numerators have weight 0 and face boxes / global extrema weight 1 on their own axis; every running minimum/maximum of coordinates in the product starts from a sentinel on the right side (+inf/max() for minima, -inf/lowest() for maxima; numeric_limits::min() is positive). Also: cell::get_angle_gradient returns vectors of weight 0 on every return path; every term accumulated into the second moments of get_cell_longest_axis has weight 0; the orientation decision is made on the consistently wound surface. Also: in the contact routines every norm / dot / cross product is taken of translation-invariant vectors (no invariance by cancellation of absolute coordinates).",
+   text="Decides the structural half of C14 in all six configurations: every add_force argument of the cell routines and of the configured contact model (including arguments of opaque geometric calls) has translation weight 0; the kernel outputs have weight 0; integrator displacements have weight 0 and points written by pos_.reset weight 1; nodes added by split/merge have weight 1; both operands of every position-dependent comparison in the refiner, the contact look-up and narrow phase, the box test and the divider's plane tests have equal weights per axis; grid quantisation numerators have weight 0 and face boxes / global extrema weight 1 on their own axis; every running minimum/maximum of coordinates in the product starts from a sentinel on the right side (+inf/max() for minima, -inf/lowest() for maxima; numeric_limits::min() is positive). Also: cell::get_angle_gradient returns vectors of weight 0 on every return path; every term accumulated into the second moments of get_cell_longest_axis has weight 0; the orientation decision is made on the consistently wound surface. Also: in the contact routines every norm / dot / cross product is taken of translation-invariant vectors (no invariance by cancellation of absolute coordinates). Also (contact model 2): an averaged position divides by the number of summands.",
    note="Rounding-level agreement of two runs and the absolute tolerances (almost_equal(x,0), machine-epsilon padding of the grids) are value-level and not decided. Declared exceptions: compute_volume (origin-based), compute_centroid (weight 1). Cached geometric state is treated as invariant (established by C02/C12). Loop-accumulated points (CM 2 averaged positions) are declined.",
    ref="DESIGN.md section 4 C14"),
 })
@@ -135,7 +135,7 @@ CLAIMS.update({
 CLAIMS.update({
  "C01": dict(
    technique="path-wise delta counting (Euler ledger) over the structured AST with callee summaries; sibling-branch agreement; permutation-parity rule on the winding decisions; stale-cache effect rule (node-order writers vs normal refreshers) over the call graph",
-   text="Decides structural necessary conditions of C01 on every path and in all six configurations: split_edge / merge_edge / swap_edge change the numbers of nodes and faces by (+1,+2) / (-1,-2) / (0,0) on every path (dV - dF/2 = 0, branches agree, early exits precede any change; replace_node summarised from its own body); delete_* reset the element and queue its slot unconditionally, add_* pop-or-append and set id/used flag in both branches; add_face's two branches register the face on the edges (n1,n2),(n2,n3),(n3,n1), refresh normal/area and set the owner, delete_face looks up the same pairs; split_edge's new faces are even/odd permutations of the replaced triangle as tested against the cached normal of the right face; swap_edge winds each new face against a surviving neighbour across one of its own edges; whenever a face's node order may change the cached normal is refreshed before control leaves the mesh classes (found D19); rebase regenerates the edge set whenever something was compacted, renumbers and remaps. Also: swap_edge returns before deleting anything when the edge it would create already exists; edge::hash (the key ordering edge_set_) multiplies node ids in arithmetic that cannot wrap for 32-bit ids. Also: on the work-list copy of an outer edge split_edge exchanges only faces that contain both nodes of that edge.",
+   text="Decides structural necessary conditions of C01 on every path and in all six configurations: split_edge / merge_edge / swap_edge change the numbers of nodes and faces by (+1,+2) / (-1,-2) / (0,0) on every path (dV - dF/2 = 0, branches agree, early exits precede any change; replace_node summarised from its own body); delete_* reset the element and queue its slot unconditionally, add_* pop-or-append and set id/used flag in both branches; add_face's two branches register the face on the edges (n1,n2),(n2,n3),(n3,n1), refresh normal/area and set the owner, delete_face looks up the same pairs; split_edge's new faces are even/odd permutations of the replaced triangle as tested against the cached normal of the right face; swap_edge winds each new face against a surviving neighbour across one of its own edges; whenever a face's node order may change the cached normal is refreshed before control leaves the mesh classes (found D19); rebase regenerates the edge set whenever something was compacted, renumbers and remaps. Also: swap_edge returns before deleting anything when the edge it would create already exists; edge::hash (the key ordering edge_set_) multiplies node ids in arithmetic that cannot wrap for 32-bit ids. Also: on the work-list copy of an outer edge split_edge exchanges only faces that contain both nodes of that edge. Also: the renumbering and the remapping of node ids in rebase run on every path on which the list was compacted; a guard that skips them must provably (linear integer arithmetic on the sizes) state that every free slot trails the elements that stay.",
    note="Not decided: that every edge stays 2-manifold and the volume positive after arbitrary operation histories, adequacy of can_be_merged's link condition, geometry-dependent orientation (the sign tests themselves). The ledger counts calls, it does not prove they are applied to the right elements.",
    ref="DESIGN.md section 4 C01"),
 })
